@@ -199,6 +199,7 @@ def aggregate(inputs, lines, build, expected_runs):
     plumbing only: the merged record keeps the maxima of the monotone quantities and one example)."""
     per = collections.defaultdict(dict)
     counts = collections.Counter()
+    notrun = [0]
     samples = {}
     done = None
     for l in lines:
@@ -211,6 +212,9 @@ def aggregate(inputs, lines, build, expected_runs):
         i = o["i"]
         if not (o["o"] == "Sanitizer" and o.get("x") == "leak-check"):
             counts[i] += 1
+        if o["o"] == "NotRun":          # the harness stopped after several hangs (see RB_MAX_HANGS)
+            notrun[0] += 1
+            continue
         k = group_key(o)
         g = per[i].get(k)
         if g is None:
@@ -232,7 +236,7 @@ def aggregate(inputs, lines, build, expected_runs):
             raise vlib.MachineryError("input %s: %d observations for %d runs (%s build)" % (inp["id"], counts[i], expected_runs(inp), build))
         recs.append({"id": inp["id"], "fmt": inp["fmt"], "cls": inp["cls"], "rle": inp["rle"], "u": inp["u"], "build": build,
                      "groups": list(per[i].values())})
-    return recs, samples
+    return recs, samples, notrun[0]
 
 
 def run_shard(exe, inputs, media, cpu, sanitized, tag, leakcheck):
@@ -295,9 +299,9 @@ def run_task(t):
 
     t0 = time.time()
     out = run_shard(t["exe"], t["inputs"], t["media"], t["cpu"], t["build"] == "san", t["tag"], t["leak"])
-    recs, smp = aggregate(t["inputs"], out, t["build"], expected)
+    recs, smp, notrun = aggregate(t["inputs"], out, t["build"], expected)
     samples = {(t["inputs"][i]["id"], k): o for (i, k), o in smp.items()}
-    return recs, samples, time.time() - t0
+    return recs, samples, time.time() - t0, notrun
 
 
 class Judge:
@@ -364,7 +368,8 @@ def execute(chk, tasks, stats):
     with ThreadPoolExecutor(max_workers=JOBS) as ex:
         futs = [(t, ex.submit(run_task, t)) for t in tasks]
         for t, f in futs:
-            recs, samples, wall = f.result()
+            recs, samples, wall, notrun = f.result()
+            stats["notrun"] += notrun
             stats["wall"][(t["build"], t["part"])] = round(stats["wall"].get((t["build"], t["part"]), 0) + wall, 1)
             judge.add(t, recs, samples)
     judge.flush()
@@ -399,7 +404,7 @@ def run_check(tier, only_inputs=None):
         "the ASan build counts and caps C++ allocations only; malloc-level requests of RapidJSON / pugixml are capped by max_allocation_size_mb",
         "stack: default 8 MiB main-thread stack; D0 = 15000 (g++ -O1) / 5000 (ASan) nesting levels"]
     stats = {"outcomes": collections.Counter(), "runs": collections.Counter(), "inputs": collections.Counter(), "wall": {},
-             "rejected": collections.Counter(), "rejected_inputs": collections.Counter(), "maxpk_wellformed": 0.0, "maxtb_wellformed": 0.0}
+             "rejected": collections.Counter(), "rejected_inputs": collections.Counter(), "maxpk_wellformed": 0.0, "maxtb_wellformed": 0.0, "notrun": 0}
     t0 = time.time()
     with ThreadPoolExecutor(max_workers=2) as ex:
         fb = ex.submit(build_all, False)
@@ -449,6 +454,11 @@ def run_check(tier, only_inputs=None):
         chk.sample({"input": {k: d[k] for k in ("id", "fmt", "cls", "rle", "n")}})
     if conv:
         chk.sample({"converter_input": conv[len(conv) // 2]})
+    if stats["notrun"]:
+        chk.cov["runs_not_executed_after_repeated_hangs"] = stats["notrun"]
+        print("NOTE: %d runs were not executed: their harness process had already recorded %s hangs" % (stats["notrun"], os.environ.get("RB_MAX_HANGS", "4")))
+        if not any(f["dev"] is None and "Hang" in f["what"] for f in chk.failures):
+            raise vlib.MachineryError("runs were skipped after hangs, but no unexplained Hang is being reported: coverage would be silently incomplete")
     return chk.finish(exhaustive=False)
 
 
